@@ -335,4 +335,189 @@ theorem parseState_eq (p : Bytes) :
             band15_eq, band127_eq, indoor_eq, outdoor_eq, display_eq, Option.map_none, e19, e21, Option.map_some])
   | (unfold Codec.parseState; cases Model.parseState p <;> rfl)
 
+/-! ### crc8.calculate, Frame.checksum / tobytes / validate, Command.tobytes -/
+
+theorem band_255 (x : Int) : Py.band x 255 = x % 256 := by
+  unfold Py.band
+  rw [show Py.bitLen 255 = 8 by decide, show (255:Nat) = 2^8 - 1 by decide, Nat.and_two_pow_sub_one_eq_mod]; omega
+
+theorem ints_cons (b : UInt8) (l : Bytes) : Py.ints (b :: l) = (b.toNat : Int) :: Py.ints l := rfl
+theorem ints_nil : Py.ints [] = [] := rfl
+theorem ints_append (a b : Bytes) : Py.ints (a ++ b) = Py.ints a ++ Py.ints b := by
+  unfold Py.ints; rw [List.map_append]
+
+theorem ints_roundtrip (l : Bytes) : (Py.ints l).map (fun x => x.toNat.toUInt8) = l := by
+  unfold Py.ints
+  rw [List.map_map]
+  conv => rhs; rw [← List.map_id l]
+  apply List.map_congr_left
+  intro b _
+  simp [Function.comp, u8_of_toNat']
+
+/-! ### crc8.calculate -/
+theorem crc_step_u8 (x : UInt8) : Py.tableGet Codec.crc8TableSrc (Py.band (x.toNat : Int) 255) = ((crcT x).toNat : Int) :=
+  u8_forall (P := fun x => Py.tableGet Codec.crc8TableSrc (Py.band (x.toNat : Int) 255) = ((crcT x).toNat : Int))
+    (by decide +kernel) x
+
+theorem bxor_u8 (a b : UInt8) : Py.bxor (a.toNat : Int) (b.toNat : Int) = (((a ^^^ b).toNat : Nat) : Int) := by
+  show ((a.toNat ^^^ b.toNat : Nat) : Int) = _
+  rw [UInt8.toNat_xor]
+
+theorem crc_fold (data : Bytes) (c : UInt8) :
+    List.foldl (fun (crc_value : Int) (m : Int) => Py.tableGet Codec.crc8TableSrc (Py.band (Py.bxor crc_value m) 255))
+      (c.toNat : Int) (Py.ints data) = (((data.foldl (fun c m => crcT (c ^^^ m)) c).toNat : Nat) : Int) := by
+  induction data generalizing c with
+  | nil => rfl
+  | cons m t ih =>
+    rw [ints_cons, List.foldl_cons, List.foldl_cons, bxor_u8, crc_step_u8]
+    exact ih _
+
+/-- **tie.** `crc8.calculate` as translated = the model's table-driven CRC, for every byte string. -/
+theorem crc8Calculate_eq (data : Bytes) : Codec.crc8Calculate (Py.ints data) = ((Model.crc8 data).toNat : Int) := by
+  first
+  | (unfold Codec.crc8Calculate Model.crc8
+     exact crc_fold data 0)
+  | (unfold Codec.crc8Calculate; rw [ints_roundtrip])
+
+/-! ### Frame.checksum -/
+theorem sumI_fold (l : Bytes) (a : Int) : List.foldl (· + ·) a (Py.ints l) = a + (sumB l : Int) := by
+  induction l generalizing a with
+  | nil => simp [Py.ints, sumB]
+  | cons b t ih =>
+    rw [ints_cons, List.foldl_cons, ih]
+    simp only [sumB, List.map_cons, List.sum_cons]
+    push_cast
+    omega
+
+theorem sumI_ints (l : Bytes) : Py.sumI (Py.ints l) = (sumB l : Int) := by
+  unfold Py.sumI; rw [sumI_fold]; omega
+
+/-- **tie.** `Frame.checksum` as translated = the model's two's-complement checksum, for every byte string. -/
+theorem checksum_eq (l : Bytes) : Codec.checksum (Py.ints l) = ((Model.checksum l).toNat : Int) := by
+  first
+  | (unfold Codec.checksum Model.checksum checksumNat
+     rw [band_255, sumI_ints]
+     have h : (256 - sumB l % 256) % 256 < 256 := Nat.mod_lt _ (by decide)
+     rw [u8_lt _ h]
+     omega)
+  | (unfold Codec.checksum; rw [ints_roundtrip])
+
+/-! ### Frame.tobytes -/
+theorem slice_tail {α} (a : α) (l : List α) : Py.slice (a :: l) (some 1) none = l := by
+  simp [Py.slice, Py.clampIdx]
+
+theorem checksum_range (l : List Int) : 0 ≤ Codec.checksum l ∧ Codec.checksum l < 256 := by
+  first
+  | (unfold Codec.checksum; rw [band_255]; omega)
+  | (unfold Codec.checksum; have := UInt8.toNat_lt (Model.checksum (l.map (fun x => x.toNat.toUInt8))); omega)
+
+/-- **tie.** `Frame.tobytes` as translated (protocol version 0, as `Frame.__init__` sets it) = the model's, for every
+    device type, frame type and payload - including the ValueError when the length does not fit a byte. -/
+theorem frameTobytes_eq (dt ft : UInt8) (data : Bytes) :
+    Codec.frameTobytes (dt.toNat : Int) 0 (ft.toNat : Int) data = Model.frameToBytes dt ft data := by
+  first
+  | (unfold Codec.frameTobytes Model.frameToBytes Py.guardRange
+     have hfl : Generated.frameHeaderLength = 10 := rfl
+     rw [hfl]
+     have hdt := dt.toNat_lt
+     have hft := ft.toNat_lt
+     have hck := checksum_range (Py.slice ([170, ((data.length : Int) + 10), (dt.toNat : Int), 0, 0, 0, 0, 0, 0, (ft.toNat : Int)] ++ Py.ints data) (some 1) none)
+     by_cases hl : data.length + 10 > 255
+     · rw [if_pos hl, if_neg]
+       simp only [List.all_cons, List.all_nil, Bool.and_eq_true, decide_eq_true_eq, not_and, Bool.and_true]
+       intro h; omega
+     · rw [if_neg hl, if_pos]
+       · have e : ((data.length : Int) + 10) = (((data.length + 10).toUInt8).toNat : Int) := by
+           rw [u8_lt _ (by omega)]; push_cast; rfl
+         rw [List.cons_append, slice_tail]
+         have hs : Codec.checksum ([((data.length : Int) + 10), (dt.toNat : Int), 0, 0, 0, 0, 0, 0, (ft.toNat : Int)] ++ Py.ints data)
+             = ((Model.checksum ([(data.length + 10).toUInt8, dt, 0, 0, 0, 0, 0, 0, ft] ++ data)).toNat : Int) := by
+           rw [← checksum_eq, ints_append, e]; rfl
+         rw [hs]
+         refine Eq.trans (congrArg Py.bytesOf ?_) (bytesOf_ok _)
+         simp only [List.map_cons, List.map_append, List.map_nil, List.cons_append, List.nil_append, e]
+         rfl
+       · simp only [List.all_cons, List.all_nil, Bool.and_eq_true, decide_eq_true_eq, Bool.and_true]
+         omega)
+  | (unfold Codec.frameTobytes; simp [u8_of_toNat'])
+
+/-! ### Frame.validate -/
+theorem ints_length (l : Bytes) : (Py.ints l).length = l.length := by simp [Py.ints]
+
+theorem index_last (l : Bytes) (x : UInt8) : Py.index (Py.ints (l ++ [x])) (-1) = .ok (x.toNat : Int) := by
+  unfold Py.index
+  have h1 : ((-1 : Int) < 0) := by decide
+  rw [if_pos h1]
+  have hl : (Py.ints (l ++ [x])).length = l.length + 1 := by rw [ints_length]; simp
+  have h2 : ¬ ((-1 : Int) + ((Py.ints (l ++ [x])).length : Int) < 0) := by rw [hl]; push_cast; omega
+  rw [if_neg h2]
+  have h3 : ((-1 : Int) + ((Py.ints (l ++ [x])).length : Int)).toNat = l.length := by rw [hl]; push_cast; omega
+  rw [h3, ints_append]
+  have : (Py.ints l ++ Py.ints [x])[l.length]? = some (x.toNat : Int) := by
+    rw [List.getElem?_append_right (by rw [ints_length]; exact Nat.le_refl _), ints_length]; simp [Py.ints]
+  rw [this]
+
+theorem slice_inner (l : Bytes) (x : UInt8) :
+    Py.slice (Py.ints (l ++ [x])) (some 1) (some (-1)) = Py.ints (l.drop 1) := by
+  unfold Py.slice
+  have hl : (Py.ints (l ++ [x])).length = l.length + 1 := by rw [ints_length]; simp
+  simp only [hl]
+  have hc : Py.clampIdx (l.length + 1) (-1) = l.length := by
+    unfold Py.clampIdx
+    have h1 : ((-1 : Int) < 0) := by decide
+    have h2 : ¬ ((-1 : Int) + ((l.length + 1 : Nat) : Int) < 0) := by push_cast; omega
+    rw [if_pos h1, if_neg h2]; push_cast; omega
+  have hc1 : Py.clampIdx (l.length + 1) 1 = 1 := by
+    unfold Py.clampIdx; simp
+  rw [hc, hc1, ints_append, List.take_append_of_le_length (by rw [ints_length]; exact Nat.le_refl _)]
+  rw [List.take_of_length_le (by rw [ints_length]; exact Nat.le_refl _)]
+  unfold Py.ints; rw [List.map_drop]
+
+theorem dropLast_drop (l : Bytes) (x : UInt8) : ((l ++ [x]).drop 1).dropLast = l.drop 1 := by
+  cases l with
+  | nil => rfl
+  | cons a t => simp
+
+/-- **tie.** `Frame.validate` as translated = the model's, for every byte string (IndexError on the empty frame). -/
+theorem frameValidate_eq (frame : Bytes) : Codec.frameValidate frame = Model.frameValidate frame := by
+  first
+  | (
+     unfold Codec.frameValidate Model.frameValidate
+     cases List.eq_nil_or_concat frame with
+     | inl h => subst h; rfl
+     | inr h =>
+       obtain ⟨l, x, h⟩ := h
+       subst h
+       rw [List.concat_eq_append, index_last, slice_inner, checksum_eq]
+       rw [ok_bind, List.getLast?_concat, dropLast_drop]
+       simp only []
+       by_cases hc : checksum (List.drop 1 l) = x
+       · rw [if_pos hc, if_neg]; · rfl
+         rw [hc]; simp
+       · rw [if_neg hc, if_pos]
+         simp only [ne_eq, decide_eq_true_eq]
+         intro h; apply hc
+         exact UInt8.toNat_inj.mp (by exact_mod_cast h))
+  | rfl
+
+/-! ### Command.tobytes -/
+/-- **tie.** What `Command.tobytes` hands to `Frame.tobytes`: data, message id, CRC-8 over both - for every payload and id. -/
+theorem commandPayload_eq (data : Bytes) (id : UInt8) :
+    Codec.commandPayload data (id.toNat : Int) = .ok (data ++ [id] ++ [Model.crc8 (data ++ [id])]) := by
+  first
+  | (
+     unfold Codec.commandPayload
+     have e : Py.ints data ++ [(id.toNat : Int)] = Py.ints (data ++ [id]) := by rw [ints_append]; rfl
+     rw [e, crc8Calculate_eq]
+     refine Eq.trans (congrArg Py.bytesOf ?_) (bytesOf_ok _)
+     simp only [List.map_append, List.map_cons, List.map_nil, Py.ints])
+  | (unfold Codec.commandPayload; simp [u8_of_toNat'])
+
+/-- **tie.** The whole of `Command.tobytes` (payload, message id, CRC-8, header, checksum) as translated = the model's
+    `commandToBytes`, for every frame type, message id and payload. -/
+theorem commandToBytes_eq (ft id : UInt8) (data : Bytes) :
+    (Codec.commandPayload data (id.toNat : Int) >>= fun p => Codec.frameTobytes ((devTypeAC).toNat : Int) 0 (ft.toNat : Int) p)
+      = commandToBytes ft id data := by
+  rw [commandPayload_eq, ok_bind, frameTobytes_eq]; rfl
+
 end Msmart.CodecEq
